@@ -109,6 +109,8 @@ def time_hits(eff, resp_issue_instant, now, slack):
         nonlocal comfortable, unspec
         if s is None:
             return
+        if wire.has_offset(s):
+            comfortable = False     # the library refuses offset spellings: acceptance is not demanded
         b = wire.ts_epoch(s)
         if b is None:
             unspec = True
@@ -123,6 +125,8 @@ def time_hits(eff, resp_issue_instant, now, slack):
         nonlocal comfortable, unspec
         if s is None:
             return
+        if wire.has_offset(s):
+            comfortable = False
         b = wire.ts_epoch(s)
         if b is None:
             unspec = True
@@ -159,6 +163,8 @@ def time_hits(eff, resp_issue_instant, now, slack):
         if a["authn"]:
             nooa("session", a["authn"][0]["session_not_on_or_after"], a["enc"])
     ii = wire.ts_epoch(resp_issue_instant)
+    if wire.has_offset(resp_issue_instant):
+        comfortable = False
     if ii is None:
         unspec = True
         comfortable = False
@@ -406,6 +412,22 @@ def judge_resp(sim, ev, rec):
                 "exc=%s msg=%s none=%s" % (out.get("exc"), out.get("exc_msg"), out.get("none")))
 
 
+_NAME_MAP = {}
+
+
+def documented_local_name(name):
+    """local name -> the local name the SP reads it under, per the shipped attrname-format:uri map
+    (a data table of the repository: to[] is looked up case-insensitively, fro[] by wire name)."""
+    if not _NAME_MAP:
+        from saml2_tophat.attributemaps import saml_uri
+        _NAME_MAP["to"] = {k.lower(): v for k, v in saml_uri.MAP["to"].items()}
+        _NAME_MAP["fro"] = {k.lower(): v for k, v in saml_uri.MAP["fro"].items()}
+    wire_name = _NAME_MAP["to"].get(name.lower())
+    if wire_name is None:
+        return None
+    return _NAME_MAP["fro"].get(wire_name.lower())
+
+
 def check_content(sim, rec, m, eff, out, asked, hits):
     """C08 / C04(session expiry) / C05(came_from) on an accepted delivery."""
     if not eff:
@@ -437,7 +459,15 @@ def check_content(sim, rec, m, eff, out, asked, hits):
                 add(sim, rec, "C08", "name-id-not-as-asked", "%s: got=%r asked=%r" % (k, got.get(k), want_nid[k]))
     ident = asked.get("identity")
     if ident is not None and not asked.get("p", {}).get("pefim") and not asked.get("p", {}).get("advice"):
-        want = {k: sorted(v.strip() for v in vals) for k, vals in ident.items()}
+        # the documented name mapping (the shipped URI map, case-insensitive on the local name): several
+        # asserted names may share one wire name and are then read back under one local name, merged
+        want = {}
+        for k, vals in ident.items():
+            lk = documented_local_name(k)
+            if lk is None:
+                continue        # not in the map: an SP that does not allow unknown attributes drops it
+            want.setdefault(lk, []).extend(v.strip() for v in vals)
+        want = {k: sorted(v) for k, v in want.items()}
         have = {k: sorted((v or "").strip() if isinstance(v, str) else repr(v) for v in vals)
                 for k, vals in (out.get("ava") or {}).items()}
         if want != have:
@@ -478,8 +508,9 @@ def judge_answer(sim, ev, rec):
     if idp is None:
         return
     tf = ev.get("tf") or []
+    enc_asked = bool(p.get("encrypt")) or (p.get("encrypt", False) is None and bool(idp.spec.get("enc_in_config")))
     asked_protect = {"sign_response": bool(p.get("sign_response")), "sign_assertion": bool(p.get("sign_assertion")),
-                     "encrypt": bool(p.get("encrypt"))}
+                     "encrypt": enc_asked}
     sp_entity = rec.get("sp_entity")
     enc_labels = idp.md_certs_for(sp_entity, "encryption") if sp_entity else None
     can_encrypt = bool(enc_labels)
